@@ -67,6 +67,69 @@ def changed_formula(before, after):
     return z3.Or(*diffs) if diffs else None
 
 
+def container_meta(v):
+    """Identity-level facts of an object passed as a size or option: type, and for arrays shape/dtype/flags."""
+    if isinstance(v, np.ndarray):
+        return (type(v).__name__, v.shape, str(v.dtype), bool(v.flags.writeable), bool(v.flags.c_contiguous), bool(v.flags.owndata))
+    if isinstance(v, (list, tuple)):
+        return (type(v).__name__, len(v), tuple(type(x).__name__ for x in v))
+    return (type(v).__name__,)
+
+
+CONTAINER_REPLAY = r'''#!/venv/bin/python
+"""Replay (C09): objects passed as sizes / options must be left exactly as they were (contents, type, flags)."""
+import json, sys
+sys.path.insert(0, "/repo")
+import numpy as np
+import einx
+SPEC = json.loads(r"""{spec}""")
+def build(v):
+    if isinstance(v, dict) and v.get("kind") == "ndarray": return np.array(v["data"])
+    if isinstance(v, dict) and v.get("kind") == "int64": return np.int64(v["data"])
+    if isinstance(v, dict) and v.get("kind") == "tuple": return tuple(v["data"])
+    return v
+def meta(v):
+    if isinstance(v, np.ndarray): return (type(v).__name__, v.shape, str(v.dtype), bool(v.flags.writeable), bool(v.flags.c_contiguous), bool(v.flags.owndata), v.tolist())
+    if isinstance(v, (list, tuple)): return (type(v).__name__, list(v))
+    return (type(v).__name__, v)
+args = [np.zeros(s, dtype=(bool if k == "bool" else np.int64)) for s, k in zip(SPEC["shapes"], SPEC["kinds"])]
+kw = {{k: build(v) for k, v in SPEC["kwargs"].items()}}
+before = {{k: meta(v) for k, v in kw.items()}}
+print("call: einx.%s(%r, <zeros %r>, **%r)" % (SPEC["op"], SPEC["desc"], SPEC["shapes"], kw))
+try:
+    getattr(einx, SPEC["op"])(SPEC["desc"], *args, **kw)
+except Exception as e:
+    print("raised", type(e).__name__)
+bad = [k for k in kw if meta(kw[k]) != before[k]]
+for k in bad:
+    print("  %s: before %r  after %r" % (k, before[k], meta(kw[k])))
+if bad:
+    print("REPRODUCED: einx changed an object passed as a size/option"); sys.exit(1)
+print("NOT-REPRODUCED"); sys.exit(0)
+'''
+
+
+def write_container_replay(case, kw, mode):
+    import hashlib, json, os
+
+    def enc(v):
+        if isinstance(v, np.ndarray):
+            return {"kind": "ndarray", "data": v.tolist()}
+        if isinstance(v, np.integer):
+            return {"kind": "int64", "data": int(v)}
+        if isinstance(v, tuple):
+            return {"kind": "tuple", "data": list(v)}
+        return v
+
+    spec = {"op": case["op"], "desc": case["desc"], "shapes": [list(shape(expand(e))) for e in case["ins"]], "kinds": case["kinds"], "kwargs": {k: enc(v) for k, v in kw.items()}}
+    text = json.dumps(runner.jsonable(spec))
+    os.makedirs(os.path.join(runner.REPLAY_DIR, PROP), exist_ok=True)
+    path = os.path.join(runner.REPLAY_DIR, PROP, "containers_" + hashlib.sha1(text.encode()).hexdigest()[:12] + ".py")
+    with open(path, "w") as f:
+        f.write(CONTAINER_REPLAY.format(spec=text))
+    return path
+
+
 def work(item):
     case, layouts, timeout_ms, mode = item
     arrs, bases, tags = [], [], []
@@ -88,6 +151,7 @@ def work(item):
             elif isinstance(v, int) and k not in ("keepdims",) and k in case["kwargs"]:
                 kw[k] = np.int64(v) if len(case["desc"]) % 2 else v
     kw_snapshot = copy.deepcopy(kw)
+    kw_meta = {k: container_meta(v) for k, v in kw.items()}
     extra = {"graph": True} if mode == "graph" else {}
     res = {"desc": case["desc"], "op": case["op"], "layouts": tags, "mode": mode}
     import einx
@@ -103,8 +167,12 @@ def work(item):
             return res
     # containers unchanged?
     same_kw = set(kw) == set(kw_snapshot) and all(type(kw[k]) is type(kw_snapshot[k]) and np.array_equal(np.asarray(kw[k]), np.asarray(kw_snapshot[k])) for k in kw)
+    same_kw = same_kw and all(container_meta(kw[k]) == kw_meta[k] for k in kw)
     if not same_kw:
-        res["status"] = "container-modified"
+        path = write_container_replay(case, kw_snapshot, mode)
+        ok, out = replay.run_script(path)
+        res["replay"], res["replay_out"] = path, out[-800:]
+        res["status"] = "container-modified" if ok else "not-reproduced"
         return res
     allowed = {0} if case["family"] == "update" and mode != "graph" else set()
     assumptions = harness.coord_assumptions(case, [S.wrap(np.array(S.plain(a), dtype=object)) for a in arrs]) if case["family"] in ("get_at", "update") else []
@@ -148,6 +216,7 @@ def work(item):
 
 
 def main():
+    family.SAME_NAME_BRACKETS = True
     tier, seed = runner.tier(), runner.seed()
     rep = runner.Report(PROP, "translation_validation")
     st = selftest.run(seed)
@@ -173,7 +242,7 @@ def main():
                 items.append((c, l, timeout_ms, "call"))
             if rng.random() < 0.2:
                 items.append((c, ["C"] * k, timeout_ms, "graph"))
-            if any(isinstance(v, tuple) for v in c["kwargs"].values()) or rng.random() < 0.1:
+            if any(isinstance(v, tuple) for v in list(c["kwargs"].values()) + list(c["opts"].values())) or rng.random() < 0.1:
                 items.append((c, ["C"] * k, timeout_ms, "containers"))
     results = runner.pmap(work, items, chunksize=8)
     status = collections.Counter()
